@@ -39,10 +39,10 @@ func waiterStorm(c *ev.Case, net *chainkit.Net, g *chainkit.Genesis, base string
 		return yieldLocker{l, func() {
 			k := atomic.AddInt64(&unlocks, 1)
 			switch x := (uint64(k) + seed) * 0x9e3779b97f4a7c15 >> 60; {
-			case x < 6:
+			case x < 4:
 				runtime.Gosched()
-			case x < 9:
-				time.Sleep(time.Duration(50+x*40) * time.Microsecond)
+			default:
+				time.Sleep(time.Duration(20+x*25) * time.Microsecond)
 			}
 		}}
 	})
